@@ -6,7 +6,9 @@ walk of the object returned by loadConfigFile via getSectionAttributes().
 """
 
 from . import conf_common as cc
+from ..gen import rewrites, texts
 from ..mon import outcome
+from ..ref import refmatch
 
 ID = "C02"
 LEVEL = "exploration"
@@ -86,16 +88,38 @@ def first_diff(a, b, path=""):
     return None
 
 
-def judge(ctx, p):
+def judge(ctx, p, rng=None):
+    judge_one(ctx, p, p.exp, p.obs, p.case())
+    if rng is None or p.exp[0] != "accept" or p.obs[0] != "ok" or \
+            rng.random() >= 0.15:
+        return
+    # the same text through the other ways in, and with its values moved
+    # into %define'd names that the environment happens to have as well
+    for label, exp, obs in cc.entry_variants(
+            ctx, p, rng, [rng.choice(["path", "padded", "fobj"])]):
+        ctx.res.count("entry_" + label)
+        judge_one(ctx, p, exp, obs, dict(p.case(), entry=label), False)
+    if p.tree is not None:
+        import copy
+        root = copy.deepcopy(p.tree)
+        if rewrites.definify(rng, root, 0.7):
+            text = texts.render(root)
+            ctx.res.count("with_defines")
+            obs = outcome.load_text(p.schema, text)
+            judge_one(ctx, p, refmatch.conform(p.res, text), obs,
+                      dict(p.case(), text=text), False)
+
+
+def judge_one(ctx, p, exp, obs, case, reload=True):
     res = ctx.res
     res.evaluations += 1
-    exp, obs = p.exp, p.obs
     if exp[0] != "accept":
         res.count("not_accepted_by_reference")
         return
     if obs[0] != "ok":
         # C01's subject; not judged here
         res.count("reference_accepts_but_rejected")
+        res.sample("rejected", dict(case, error=list(obs[:6])), 3)
         return
     res.count("accepted_compared")
     res.sig(cc.model_features(p.model) + "|" + tree_shape(exp[1])[:60])
@@ -103,36 +127,36 @@ def judge(ctx, p):
                             "expected_tree": exp[1]}, 2)
     d = first_diff(exp[1], obs[1])
     if d:
-        res.violate("value-tree-differs", p.case(),
+        res.violate("value-tree-differs", case,
                     {"at": d[0], "expected": d[1]},
                     {"at": d[0], "observed": d[2]},
                     detail="text=%r at %s expected %r observed %r"
-                    % (p.text, d[0], d[1], d[2]),
+                    % (case["text"], d[0], d[1], d[2]),
                     vsig="tree|%s|%s" % (d[0].split("/")[-1][:12],
                                          str(d[1])[:20]))
         return
     config = obs[3][0]
     extra = outcome.extra_public_attributes(config)
     if extra:
-        res.violate("attributes-differ-from-declared", p.case(), [],
+        res.violate("attributes-differ-from-declared", case, [],
                     [[list(map(str, a)), b] for a, b in extra],
-                    detail="text=%r" % p.text)
+                    detail="text=%r" % case["text"])
         return
     # the application changes every list / mapping of the result in place,
     # then reads the same text again: the second tree must be the schema's
     # again (converted values or defaults remembered by reference show here)
-    if outcome.poison(config):
+    if reload and outcome.poison(config):
         res.hook("reloaded_after_poisoning_result")
         again = outcome.load_text(p.schema, p.text)
         d = (("", "accepted", again[:2]) if again[0] != "ok"
              else first_diff(exp[1], again[1]))
         if d:
-            res.violate("value-tree-differs-on-reload", p.case(),
+            res.violate("value-tree-differs-on-reload", case,
                         {"at": d[0], "expected": d[1]},
                         {"at": d[0], "observed": d[2]},
                         detail="after the first result was modified in "
                         "place: text=%r at %s expected %r observed %r"
-                        % (p.text, d[0], d[1], d[2]),
+                        % (case["text"], d[0], d[1], d[2]),
                         vsig="reload|%s|%s" % (d[0].split("/")[-1][:12],
                                                str(d[1])[:20]))
 
@@ -143,10 +167,16 @@ def fault_plan(rng):
 
 
 def run_shard(ctx):
+    rng = ctx.rng("entries")
     for p in cc.pairs(ctx, N_MODELS[ctx.tier], TEXTS[ctx.tier],
                       fault_plan=fault_plan, p_bad_value=0.01):
-        judge(ctx, p)
+        judge(ctx, p, rng)
 
 
 def replay(ctx, case):
-    judge(ctx, cc.replay_pair(case))
+    p = cc.replay_pair(case)
+    if case.get("entry"):
+        exp, obs = cc.replay_entry(ctx, p, case)
+        judge_one(ctx, p, exp, obs, case, False)
+    else:
+        judge(ctx, p)
